@@ -252,11 +252,11 @@ func (e *Env) expr(x ast.Expr) Val {
 			}
 		}
 		base.typ = bt
-		return base
+		return e.ranged(base)
 	case *ast.StarExpr:
 		v := e.expr(n.X)
 		a := tr.addrOf(v, e.typeOf(n.X))
-		return tr.load(e.st, a)
+		return e.ranged(tr.load(e.st, a))
 	case *ast.IndexExpr:
 		// generic instantiation used as function value is handled in call()
 		base := e.expr(n.X)
@@ -377,6 +377,35 @@ func (e *Env) intIndex(x ast.Expr) Sx {
 		return v.t
 	}
 	return e.tr.c.it.conv(k, I64, v.t)
+}
+
+// ranged: a value read from the heap by a specification has the range of its Go type (a machine
+// integer in the int encoding, a string length in [0, 2^40]); only outside quantifiers, where
+// the term is closed and can carry an axiom.
+func (e *Env) ranged(v Val) Val {
+	if e.qdepth != 0 || v.t == "" || v.typ == nil || v.addr != nil || len(v.tup) > 0 {
+		return v
+	}
+	c := e.tr.c
+	b, ok := v.typ.Underlying().(*types.Basic)
+	if !ok {
+		return v
+	}
+	if k, isInt := basicIntKind(b); isInt {
+		if f := c.it.inRange(k, "x"); f == "true" {
+			return v
+		}
+		nm := c.define("ld", c.sortOf(v.typ), v.t)
+		c.axiom(nm, c.it.inRange(k, nm))
+		v.t = nm
+		return v
+	}
+	if isStringType(v.typ) {
+		nm := c.define("sld", "Str", v.t)
+		c.axiom(nm, and(c.it.le(I64, c.it.iconst(0), sx("slen", nm)), c.it.le(I64, sx("slen", nm), c.it.iconst(1<<40))))
+		v.t = nm
+	}
+	return v
 }
 
 func (e *Env) globalRead(ov *types.Var) Val {
@@ -636,6 +665,15 @@ func (e *Env) prelude(name string, n *ast.CallExpr, typeArgs []types.Type, rt ty
 		return e.quant("forall", it.isort(), bound, types.Typ[types.Int64], func(v Sx) Sx {
 			return it.inRange(I64, v)
 		}, fl)
+	case "forallfloat":
+		fl, ok := n.Args[0].(*ast.FuncLit)
+		if !ok {
+			break
+		}
+		bound := fl.Type.Params.List[0].Names[0].Name
+		return e.quant("forall", "(_ FloatingPoint 11 53)", bound, types.Typ[types.Float64], func(v Sx) Sx {
+			return "true"
+		}, fl)
 	case "addFits", "subFits", "mulFits":
 		a, b := arg(0).t, arg(1).t
 		if it.mode == ModeInt {
@@ -849,6 +887,8 @@ func (e *Env) prelude(name string, n *ast.CallExpr, typeArgs []types.Type, rt ty
 			t = n
 		}
 		return Val{t: t, typ: rt}
+	case "arrayOf":
+		return Val{t: sx("sl_arr", arg(0).t), typ: rt}
 	case "bufAt":
 		_, data := tr.bufKeys()
 		return Val{t: sx("select", sx("select", tr.memGet(e.st, data), arg(0).t), e.intIndex(n.Args[1])), typ: rt}
